@@ -126,6 +126,9 @@ impl TraceOut {
         let w = self.w.as_mut().unwrap();
         serde_json::to_writer(&mut *w, &v).unwrap();
         w.write_all(b"\n").unwrap();
+        // the process may be aborted by the library under test: keep the
+        // file complete up to the last event
+        w.flush().unwrap();
         self.in_chunk += 1;
         self.total_events += 1;
     }
